@@ -9,7 +9,7 @@ from ..kernelcases import encode_values
 from ..publicops import REDUCTIONS, ROW_OPS, SELECT_OPS, approx_equal, run_op
 
 PID = "C06"
-MODULES = ["GroupbyVerif.Props.C06"]
+MODULES = ["GroupbyVerif.Props.C06", "GroupbyVerif.LoopBridge.Nearby", "GroupbyVerif.Lemmas.Nearby"]
 RULE = ("seeded random datasets with nulls at any subset of rows and in any key position of 1-3 keys (float/str/datetime/categorical key classes), "
         "<= 14 rows, single non-categorical keys also as a two-chunk arrow key (chunk-local codes), value classes f64 i64 M8[ns] x every operation (11 reductions, their transform=True forms, cumulative, rolling, shift/diff, EMA "
         "plain and timed, head/tail/nth, groups, group_nearby_members); relations: (a) deleting the null-key rows leaves every label's / every other "
@@ -97,8 +97,16 @@ def evaluate(case, drv):
             times = np.array([1_600_000_000 + 2 * i for i in rows], dtype="int64").view("datetime64[s]")
         gb = GroupBy(keys)
         if base == "nearby":
-            out = gb.group_nearby_members(np.array([float(i) for i in rows]), 1.5)
-            return ("rows", [int(x) for x in np.asarray(out)])
+            # values with gaps of 1..2 between neighbouring rows, integer threshold 1..3: distances equal to the threshold occur
+            nv = [float(i + (i // 3)) for i in rows]
+            out = gb.group_nearby_members(np.array(nv), float(case["window"]))
+            got = [int(x) for x in np.asarray(out)]
+            if rows == list(range(n)):
+                # correspondence with the Lean model on the implementation's own codes (integer values and threshold)
+                codes = [int(c) for c in np.asarray(gb.group_ikey)]
+                ans = drv.ask(f"nearby codes={','.join(map(str, codes))} vals={','.join(str(int(x)) for x in nv)} maxdiff={case['window']}")
+                pos["model_nearby"] = (ans.get("model"), ",".join(map(str, got)))
+            return ("rows", got)
         kw = dict(window=case["window"], min_periods=1)
         if base == "nth":
             kw["n"] = case["n"]
@@ -118,6 +126,12 @@ def evaluate(case, drv):
     except Exception as e:  # noqa
         clean = ("error", f"{type(e).__name__}: {str(e)[:150]}")
     res["observed"] = dict(full=str(full)[:200], clean=str(clean)[:200])
+    if "model_nearby" in pos:
+        res["tags"].append("model-tie:nearby")
+        m, g = pos["model_nearby"]
+        if m != g and full[0] != "error":
+            res.update(verdict="disagreement", detail=dict(case=case, model=m, actual=g, note="group_nearby_members differs from the Lean model"))
+            return res
     if clean is None:
         # only null-key rows: no label may be created; a failure here is the 'no rows' edge of apply (C05/C09 finding)
         if full[0] == "labels" and full[1]:
